@@ -144,6 +144,10 @@ STRESS_FRAGMENTS = ["'''", '"""', "'", '"', '\n;', '\n;', '\n', ';', '\\', '\\\n
                     '#', '_x', 'data_', '$', 'C:\\dir\\', ';\\', 'w' * 2040, 'line ' * 30]
 
 
+BARE_LOOKALIKES = ['data_', 'data_set', 'save_', 'save_fr', 'loop_', 'stop_', 'global_', 'dat_', 'data', 'loop', '_name', '$ref', '#c',
+                   "'q", '"q', ';x', '[a', ']', '{', '}b', 'a b', 'a\tb', 'a[b', 'a]', 'a{', 'k}', "a'", 'ok', '?x', '.5x', '-', '+']
+
+
 def delimiter_stress_doc(rng):
     """strings assembled from the pieces the writer's choice of delimiter, text-field protocol (folding, prefixing,
     protection of trailing backslashes) and line breaking look at; scalars and loop values"""
@@ -152,6 +156,17 @@ def delimiter_stress_doc(rng):
         return ('char', t, True)
     entries = [('item', '_s%d' % k, s()) for k in range(4)]
     entries.append(('loop', ['_l1', '_l2'], [[s(), s()], [s(), ('char', 'plain', False)]]))
+    # strings without a bare form (keyword look-alikes in every letter case, reserved first characters, blanks) for which
+    # the caller asks for the bare form all the same (cif_value_set_quoted(v, CIF_NOT_QUOTED)): granted or refused, what
+    # is written must read back as the string
+    def w():
+        t = rng.choice(BARE_LOOKALIKES)
+        if rng.random() < 0.5:
+            t = ''.join(c.upper() if rng.random() < 0.5 else c.lower() for c in t)
+        return ('char', t + rng.choice(['', '', 'x', '1', '_']), 'try')
+    entries += [('item', '_w%d' % k, w()) for k in range(3)]
+    entries.append(('item', '_wl', ('list', (w(), w()))))
+    entries.append(('loop', ['_w.a', '_w.b'], [[w(), w()]]))
     return [{'code': 'stress', 'entries': entries}]
 
 
